@@ -362,7 +362,19 @@ def illtyped(ctx, rng, g, s):
              S.mk_comb(eqc, v('xs'), v('ys')), S.mk_comb(consc, v('x'), v('ys')), ('comb', v('g'), v('x')),
              ('abs', 'z', N, S.mk_comb(eqc, ('comb', v('g'), ('bound', 0)), v('x'))),
              S.mk_comb(eqc, ('comb', v('f'), v('x')), v('x'))]
+    # an UNDECLARED schematic variable used twice: both occurrences are one variable (clashing uses must be refused,
+    # agreeing uses must come back at one type)
+    su = ('svar', rng.choice(['u', 'a1', 'x']), N)
+    conjc = ('const', 'conj', N)
+    decl['R'] = S.fun(tb, S.BOOL)
+    pool2 += [S.mk_comb(conjc, ('comb', v('P'), su), ('comb', v('R'), su)),
+              S.mk_comb(eqc, ('comb', v('f'), su), su),
+              S.mk_comb(conjc, ('comb', v('P'), su), S.mk_comb(eqc, su, v('y')))]
     sk2 = rng.choice(pool2)
+    if rng.random() < 0.25:
+        # the agreeing control: P ?u & P ?u - accepted, and ?u must have ONE type in the result
+        sk2 = S.mk_comb(conjc, ('comb', v('P'), su), S.mk_comb(eqc, su, v('x')))
+        ctx.count('undeclared_svar_twice_agreeing')
     context.set_context(None, vars={n_: S.to_repo_type(T_) for n_, T_ in decl.items()})
     ctx.count('gen_illtyped')
     ctx.count('gen_illtyped_type_variable_clash')
